@@ -57,7 +57,7 @@ class CDSInterval(AbstractFeatureInterval):
         self._genomic_starts = cds_starts
         self._genomic_ends = cds_ends
         self.start = cds_starts[0]
-        self.end = cds_ends[-1]
+        self.end = max(cds_ends)
         self._strand = strand
         self._parent_or_seq_chunk_parent = parent_or_seq_chunk_parent
         self.sequence_guid = sequence_guid
